@@ -181,17 +181,24 @@ class Filter(object):
 
         feat2filter = np.unique(feat2filter)
 
+        # Validate all features before any box filter is recomputed, so
+        # that an invalid configuration leaves the cached box filters
+        # (which correspond to `self._old_config`) untouched.
+        for feat in feat2filter:
+            fstart = feat + " min"
+            fend = feat + " max"
+            if ((fstart in cfg_cur and fend not in cfg_cur)
+                    or (fstart not in cfg_cur and fend in cfg_cur)):
+                # User is responsible for setting min and max values!
+                raise ValueError("Box filter: Please make sure that both "
+                                 "'{}' and '{}' are set!".format(fstart, fend))
+
         for feat in feat2filter:
             fstart = feat + " min"
             fend = feat + " max"
             must_be_filtered = (fstart in cfg_cur
                                 and fend in cfg_cur
                                 and cfg_cur[fstart] != cfg_cur[fend])
-            if ((fstart in cfg_cur and fend not in cfg_cur)
-                    or (fstart not in cfg_cur and fend in cfg_cur)):
-                # User is responsible for setting min and max values!
-                raise ValueError("Box filter: Please make sure that both "
-                                 "'{}' and '{}' are set!".format(fstart, fend))
             if feat in self.features:
                 # Get the current feature filter
                 feat_filt = self[feat]
